@@ -228,3 +228,53 @@ func VC_C05_returns_rows() {
 	}
 	verifReached("C05.rows")
 }
+
+var vOvN = [5]string{"call0", "call1", "call2", "call3", "call4"}
+
+// VC_C05_overlapping: two condition clauses whose condition values may be equal, the
+// first one configured in two steps (When(c).Return(a0) and, later, Return(a1) on the
+// same clause), and a default: every call advances exactly the sequence of the stub it
+// selects (the first registered clause that matches, else the default) by one; the other
+// sequences stay where they are.
+func VC_C05_overlapping() {
+	c1 := verifInt("c1")
+	c2 := c1 + 1
+	if verifBool("sameCondition") {
+		c2 = c1
+	}
+	other := c1 + 2
+	a0, a1, b0, b1, d0 := verifInt("a0"), verifInt("a1"), verifInt("b0"), verifInt("b1"), verifInt("d0")
+	w, err := CreateWhen(nil, vC05F, nil, []interface{}{d0}, false)
+	verifAssert(err == nil, "C05.overlap.create-ok")
+	w.When(c1).Return(a0)
+	w.Return(a1) // the clause of c1 continues: a0, a1
+	w.When(c2).Returns(b0, b1)
+	f := reflect.MakeFunc(w.funcTyp, func(args []reflect.Value) []reflect.Value { return w.invoke(args) }).Interface().(func(int) int)
+	wantA := [2]int{a0, a1}
+	wantB := [2]int{b0, b1}
+	ka, kb := 0, 0
+	args := [3]int{c1, c2, other}
+	for i := 0; i < 5; i++ {
+		which := verifChoice(vOvN[i], 3)
+		got := f(args[which])
+		switch {
+		case which == 0 || (which == 1 && c2 == c1):
+			k := ka
+			if k > 1 {
+				k = 1
+			}
+			verifAssert(got == wantA[k], "C05.overlap.first-clause-advances-by-one-per-own-call")
+			ka++
+		case which == 1:
+			k := kb
+			if k > 1 {
+				k = 1
+			}
+			verifAssert(got == wantB[k], "C05.overlap.second-clause-advances-independently")
+			kb++
+		default:
+			verifAssert(got == d0, "C05.overlap.default-for-unmatched")
+		}
+	}
+	verifReached("C05.overlap")
+}
